@@ -444,6 +444,11 @@ JOBS = [
          af=['chi_square_dof', 'mc_result_value', 'mc_result_variance'], structs=_ST_VCHK[:4], preludes=['opaque.h'],
          globals='size_t vp_cm_calls, vp_cm_lo, vp_cm_hi; const void *vp_cm_vec; T vp_g_E;', defines=['VP_NMAX=1048576'], props=['C13'],
          trusted=['the accumulator functor is a logged stub returning any result (its contract: job weighted_with_variance)', 'n - 1 as an unsigned expression: for an empty range the code divides 0 by T(SIZE_MAX) (defined wrap, result 0)']),
+    dict(name='acc_dist_ctor', functions=['accumulator_dist_ctor1', 'distribution_parameters_bins_x', 'distribution_parameters_bins_y'],
+         specs=['accumulator_dist_ctor1'], entry='h_accumulator_dist_ctor1', enforce='accumulator_dist_ctor1',
+         structs=[dict(cls='distribution_parameters', vec=True), dict(cls='accumulator', cls_targs=['double', '1'], cname='accumulator_dist')],
+         preludes=['opaque.h'], defines=['VP_DMAX=65536', 'VP_BINSMAX=1024'], props=['C11', 'C02'],
+         assumptions=['every distribution has 1 <= bins_x, bins_y <= 1024 and there are at most 2^16 distributions (hypothesis assumed at the elements read)']),
     dict(name='dist1d', functions=['accumulator_dist_add_to_1d_distribution', 'accumulate', 'distribution_parameters_x_min', 'distribution_parameters_bin_size_x', 'distribution_parameters_bins_x'],
          specs=['accumulator_dist_add_to_1d_distribution', 'accumulate'], entry='h_accumulator_dist_add_to_1d_distribution', enforce='accumulator_dist_add_to_1d_distribution',
          replace=['accumulate'], structs=[dict(cls='distribution_parameters', vec=True), dict(cls='accumulator', cls_targs=['double', '1'], cname='accumulator_dist')],
